@@ -122,6 +122,33 @@ func (P *Prog) acceptedKinds(fn *ssa.Function) (kindTable, bool, string) {
 				kt[strings.TrimSuffix(rt.Args[0].S, ",ok")] = ""
 				continue
 			}
+			// the verdict of an in-package predicate over the same value
+			{
+				call := rt
+				if call.Op == "res" && len(call.Args) == 1 {
+					call = call.Args[0]
+				}
+				if call.Op == "call" && len(call.Args) == 1 && call.Args[0].eq(p0) && typ == "" {
+					if g := P.calleeOfTerm(call); g != nil && g != fn && boolResultIndex(g) >= 0 && (rt.Op == "call" || rt.S == strconv.Itoa(boolResultIndex(g))) && !P.kindsBusy[g] {
+						if P.kindsBusy == nil {
+							P.kindsBusy = map[*ssa.Function]bool{}
+						}
+						P.kindsBusy[fn] = true
+						sub, ok, why := P.acceptedKinds(g)
+						delete(P.kindsBusy, fn)
+						if !ok {
+							return kt, false, "in " + shortFn(g) + ": " + why
+						}
+						for k, v := range sub {
+							if old, seen := kt[k]; seen && old != v {
+								v = ""
+							}
+							kt[k] = v
+						}
+						continue
+					}
+				}
+			}
 			if typ != "" && val != nil {
 				// e.g. v >= 0 : !(v < 0)
 				if rt.Op == "binop" && rt.S == ">=" && rt.Args[0].eq(val) && rt.Args[1].String() == "0" {
@@ -205,7 +232,8 @@ type predClass struct {
 func (P *Prog) valuePredicates() []*predClass {
 	var out []*predClass
 	for _, fn := range P.Funcs {
-		if !isAnyPred(fn) || len(fn.Params) != 1 || fn.Signature.Results().Len() != 1 || fn.Signature.Recv() != nil || fn.Blocks == nil {
+		// func(any) bool, or func(any) (T, bool): the flag of a conversion helper
+		if !isAnyPred(fn) || len(fn.Params) != 1 || fn.Signature.Results().Len() > 2 || fn.Signature.Recv() != nil || fn.Blocks == nil {
 			continue
 		}
 		kt, ok, why := P.acceptedKinds(fn)
@@ -708,4 +736,22 @@ func (P *Prog) prefixFacts(fs factSet) [][2]*Term {
 		out = append(out, [2]*Term{d.subst(m), o.subst(m)})
 	}
 	return out
+}
+
+// predCallOf: the condition is the verdict of a classified value predicate on
+// one argument: call<f>(x) for a func(any) bool, res<k>(call<g>(x)) for the
+// flag of a func(any) (T, bool). Returns the callee's short name and x.
+func (P *Prog) predCallOf(t *Term) (string, *Term) {
+	call := t
+	if t.Op == "res" && len(t.Args) == 1 && t.Args[0].Op == "call" {
+		call = t.Args[0]
+		g := P.calleeOfTerm(call)
+		if g == nil || t.S != strconv.Itoa(boolResultIndex(g)) {
+			return "", nil
+		}
+	}
+	if call.Op != "call" || len(call.Args) != 1 {
+		return "", nil
+	}
+	return call.S, call.Args[0]
 }
